@@ -38,7 +38,7 @@ def make(cls, model, x0, p0, opts, rng):
 def gen_cfg(rng):
     ndim = rng.choice([1, 1, 2, 3])
     dt = rng.choice([0.5, 1.0, 0.25, 0.1, 0.3, 20.0, 7.0])
-    t0 = rng.choice([0.0, 0.0, 3.5, -2.0, 100.0])
+    t0 = rng.choice([0.0, 0.0, 3.5, -2.0, 100.0, 2.0e5, 1.0e7, -3.0e6])
     every = rng.choice([1, 1, 2, 3, 5, 7])
     max_steps = rng.choice([-1, 0, 1, 2, 5, 17, 40, 60])
     kt = rng.random()
